@@ -342,10 +342,11 @@ def run_series_functions(cx):
     # ---------------------------------------------------------------- areas and splits
     b = cx.fn(f'{S1}::middle_reiemann_areas')
     if b:
-        pushes = b.calls('Vec::push')
-        ok = len(pushes) == 1
+        from vpa import comp as CMP
+        comps = [c for c in CMP.comprehensions(cx, b, cx.retval(b)) if c.get('elem') is not None]
+        ok = len(comps) == 1 and not comps[0]['conds']
         if ok:
-            v = cx.arg(pushes[0], 1)
+            v = comps[0]['elem']
             X0, X1 = '(index (field x (param self)) $i)', '(index (field x (param self)) (add 1 $i))'
             Y0, Y1 = '(index (field y (param self)) $i)', '(index (field y (param self)) (add 1 $i))'
             e = match(f'(agg tuple (0 (mul (add {X0} {X1}) 0.5)) (1 (mul (mul (sub {X1} {X0}) (add {Y0} {Y1})) 0.5)))', v)
